@@ -32,6 +32,10 @@ fn real_main() {
         "C15" => c15::run(tier),
         "C19" => c19::run(tier),
         "C12" => c12c::run(tier),
+        // second client half of C12: clients of every version doing calls and events through the
+        // real broker (a client that uses a message kind newer than its negotiated version is
+        // closed by the broker, which the programs notice)
+        "C12-programs" => c06::run_prop_file("C12", "c12-client-programs", tier, Some(&["p1-registry", "p1b-proxy-vs-destroy", "p2-calls", "p3-events"])),
         // client halves of broker-side properties (run before busmc, see `check`)
         "C04" => c06::run_prop("C04", tier, Some(&["p3-events", "p3b-burst", "p3c-siblings"])),
         "C05" => c06::run_prop("C05", tier, Some(&["p4-channels"])),
